@@ -49,7 +49,8 @@ def build_module(ctx, kids, flav):
          internal signal `bp_y_`: bp.y flattens to `bp_y__`."""
     B = ctx.Bnd
     mid = len(ctx.mods)
-    m = h.Module(name=f"M{mid}")
+    # flav >> 8 = t + 1: the module is a NAMESAKE of module t (a different object with the same name)
+    m = h.Module(name=f"M{(flav >> 8) - 1}" if flav >> 8 else f"M{mid}")
     m.vss = h.Port()
     m.d = h.Input(width=2)
     m.q = h.Port()
